@@ -10,8 +10,8 @@ LEVEL = "model_checking"
 ASSUMPTIONS = ["file data dumped by `p` is not archive-derived *text*: members carry plain ASCII data so that all of stdout can be checked",
                "header records are taken as the library returns them; list output is additionally compared with ListOutput.tla",
                "TLC/SANY/CommunityModules trusted"]
-FIELDS = ["name", "path", "target", "method_first", "method_later", "user", "group"]
-MODES = ["l", "lv", "v", "vv", "t", "x", "xn", "xq0", "xq1", "xq2", "p", "xx_n", "xx_s", "xx_a", "xx_y", "xx_z", "xxn", "xxi"]
+FIELDS = ["name", "path", "target", "method_first", "method_later", "user", "group", "longpath", "longname", "linkpath", "longlinkpath"]
+MODES = ["l", "lv", "v", "vv", "t", "x", "xn", "xq0", "xq1", "xq2", "p", "xx_n", "xx_s", "xx_a", "xx_y", "xx_z", "xxn", "xxi", "x_notdir"]
 # xx_*: a second extraction over the result of a first one, without f / q: every file is asked about on standard error, the answers
 # being n, s (skip all), a (all), y, or something unrecognised first; xxn: dry run over existing files; xxi: the same with option i
 ANSWERS = {"xx_n": b"n\nn\nn\nn\n", "xx_s": b"s\n", "xx_a": b"a\n", "xx_y": b"y\ny\ny\ny\n", "xx_z": b"zz\n\x1b\nq\ny\nn\nn\n", "xxn": b"", "xxi": b"n\ny\ns\n"}
@@ -26,12 +26,22 @@ def hostile_archive(field, byte, later):
     method = b"-lh0-"
     if field == "path":
         exts.append((arc.X_PATH, b"d" + b + b"e\xff"))
+    # components too long for the file system: every system call on them fails, and the failures are reported by name
+    if field == "longpath":
+        exts.append((arc.X_PATH, b"d" + b + b"e" * 300 + b"\xff"))
+    if field == "longname":
+        exts[0] = arc.x_name(b"n" + b + b"m" * 300)
     if field == "user":
         exts.append(arc.x_user(b"u" + b + b"v"))
     if field == "group":
         exts.append(arc.x_group(b"g" + b + b"h"))
     if field == "target":
         exts = [arc.x_name(b"lnk|t" + b + b"u"), arc.x_perm(0o120777)]
+        kw.update(method=b"-lhd-", payload=b"")
+    # a symbolic link below a hostile directory name: links are not asked about first, so it is the creation of the parent
+    # directories that meets the obstacle (a file in the way / a component too long) and reports it
+    if field in ("linkpath", "longlinkpath"):
+        exts = [arc.x_name(b"lnk|tgt"), (arc.X_PATH, b"d" + b + b"e" * (1 if field == "linkpath" else 300) + b"\xff"), arc.x_perm(0o120777)]
         kw.update(method=b"-lhd-", payload=b"")
     if field == "method_first":
         method = b"-lh" + b + b"-"            # bytes 3 and 4 are fixed by the signature scan
@@ -79,6 +89,17 @@ def run(tier, seed, ev):
                     if not os.path.exists(a2):
                         shutil.copy(a, a2)
                     e, p = LG.list_event(lha, a2, mem[a], mode, 0, [], LG.NOW, LG.NOW - 1000)
+                elif mode == "x_notdir":
+                    # a regular file where the member's directory would have to be (error messages name the path)
+                    xd = os.path.join(sc, "x%d_%d" % (k, n))
+                    os.makedirs(xd)
+                    if cfg[0] in ("path", "linkpath"):
+                        open(os.path.join(xd.encode(), b"d" + bytes([cfg[1]]) + b"e"), "wb").write(b"in the way")
+                    p = subprocess.run([lha, "xw=" + xd, a], capture_output=True, env=V.run_env(), stdin=subprocess.DEVNULL, timeout=120)
+                    e = {"e": "Out", "mode": mode, "cfg": [cfg[0], cfg[1], cfg[2]], "out": list(p.stdout + p.stderr)}
+                    if p.returncode == 255:
+                        p.returncode = 1
+                    shutil.rmtree(xd, ignore_errors=True)
                 elif mode.startswith("xx"):
                     xd = os.path.join(sc, "x%d_%d" % (k, n))
                     os.makedirs(xd)
@@ -96,7 +117,7 @@ def run(tier, seed, ev):
                     p = subprocess.run([lha, cmd, a], capture_output=True, env=V.run_env(), stdin=subprocess.DEVNULL, timeout=120)
                     e = {"e": "Out", "mode": mode, "cfg": [cfg[0], cfg[1], cfg[2]], "out": list(p.stdout + p.stderr)}
                     shutil.rmtree(xd, ignore_errors=True)
-                if p.returncode not in (0, 1):
+                if p.returncode not in (0, 1, 255):      # (255 = the tool's own exit(-1), e.g. after "Failed to read file type": a normal exit)
                     e = {"e": "Crash", "code": p.returncode, "cfg": [cfg[0], cfg[1], cfg[2]], "mode": mode, "stderr": p.stderr.decode(errors="replace")[-300:]}
                 f.write(json.dumps(e, separators=(",", ":")) + "\n")
                 n += 1
